@@ -40,7 +40,8 @@ RULE = ('all operation sequences of length <= 4 (quick) / <= 5 (thorough) over {
 ASSUMPTIONS = [
     '"as soon as a message is deliverable" = within model_sleeps + 2 calls of ports.sleep(); non-blocking calls must not sleep at all and must not call the device with block=True',
     'a blocking receive() on a closed, drained port may raise ValueError or OSError (either is "stop")',
-    'an IOPort wrapper whose input device closed itself while the wrapper is still open is not judged (observed: iteration then raises ValueError)',
+    'an IOPort wrapper whose input device closed itself while the wrapper is still open: only that what was taken in is handed out and that the following blocking call terminates (returns or raises) is judged - how the end is reported is not (observed: iteration then raises ValueError)',
+    'a connection reset by the peer surfaces as OSError from the read (sockets.py re-raises it): only what follows is judged - close() works, what had arrived completely is handed out',
     'under overlapping calls only close-once / reset-once / no exception are judged; whether a send that overlaps a close reaches the device is not',
 ]
 DECIDING = ['results == lifecycle model', 'device released exactly once', 'reset messages once, before release',
